@@ -24,6 +24,10 @@ class Untranslatable(Exception):
     pass
 
 
+class Unbound(Untranslatable):
+    """a local that is assigned somewhere in the function but not on this path (Python: UnboundLocalError)"""
+
+
 INT, RAT, BOOL, PROP, STR = "Int", "Rat", "Bool", "Prop", "String"
 
 
@@ -46,6 +50,28 @@ class Fn:
         self.registry = registry
         self.has_raise = any(isinstance(n, ast.Raise) for n in ast.walk(node))
         self.counter = 0
+        # --- additive options (C18/C20): partial division, per-location ("column") reading, extern calls
+        # spec["partial_div"]: every `/` is `Py.divE` (error "div0" where numpy yields inf/NaN); the function then
+        # returns `Except String _` and its body is a `do` block. The wrapping is applied only when the source
+        # actually divides / raises / calls a wrapped callee ("auto"), so a division that appears in a function
+        # modelled as total changes the generated *type* and the `Gen = Model` theorem stops checking.
+        self.extern = spec.get("extern", {})
+        self.column = bool(spec.get("column"))
+        self.assigned = {
+            t.id for n in ast.walk(node) if isinstance(n, ast.Assign) for t in n.targets if isinstance(t, ast.Name)
+        }
+        self.monadic = False
+        if spec.get("partial_div"):
+            has_div = any(isinstance(n, ast.BinOp) and isinstance(n.op, ast.Div) for n in ast.walk(node))
+            calls_wrapped = False
+            for n in ast.walk(node):
+                if isinstance(n, ast.Call):
+                    nm = n.func.id if isinstance(n.func, ast.Name) else (n.func.attr if isinstance(n.func, ast.Attribute) else None)
+                    cal = registry.get(nm)
+                    if cal is not None and cal.wrap:
+                        calls_wrapped = True
+            self.monadic = has_div or calls_wrapped or self.has_raise or bool(spec.get("unbound_local_error"))
+        self.wrap = self.has_raise or self.monadic
 
     # ------------------------------------------------------------------ expressions
     def fresh(self, base="t"):
@@ -87,6 +113,8 @@ class Fn:
         if isinstance(e, ast.Name):
             if e.id in env:
                 return e.id, env[e.id]
+            if e.id in self.assigned:
+                raise Unbound(f"local {e.id} not assigned on this path")
             raise Untranslatable(f"unknown name {e.id}")
         if isinstance(e, ast.Attribute):
             # self.attr
@@ -117,9 +145,14 @@ class Fn:
         if isinstance(e, ast.BinOp):
             a, ta = self.expr(e.left, env, pre)
             b, tb = self.expr(e.right, env, pre)
-            return self.binop(e.op, a, ta, b, tb)
+            return self.binop(e.op, a, ta, b, tb, pre)
         if isinstance(e, ast.BoolOp):
-            parts = [self.expr(v, env, pre) for v in e.values]
+            parts = []
+            for k, v in enumerate(e.values):
+                n0 = len(pre)
+                parts.append(self.expr(v, env, pre))
+                if k > 0 and any(len(p) == 4 for p in pre[n0:]):
+                    raise Untranslatable("partial operation in a short-circuited operand")
             op = " ∧ " if isinstance(e.op, ast.And) else " ∨ "
             return "(" + op.join(self.coerce(s, t, PROP) for s, t in parts) + ")", PROP
         if isinstance(e, ast.Compare):
@@ -133,8 +166,11 @@ class Fn:
             return "(" + ", ".join(self.val(s, t) for s, t in parts) + ")", tuple(self.valt(t) for _, t in parts)
         if isinstance(e, ast.IfExp):
             c, tc = self.expr(e.test, env, pre)
+            n0 = len(pre)
             a, ta = self.expr(e.body, env, pre)
             b, tb = self.expr(e.orelse, env, pre)
+            if any(len(p) == 4 for p in pre[n0:]):
+                raise Untranslatable("partial operation inside a conditional expression")
             a, b, t = self.unify_num(a, ta, b, tb)
             return f"(if {self.coerce(c, tc, PROP)} then {a} else {b})", t
         if isinstance(e, ast.ListComp):
@@ -164,7 +200,7 @@ class Fn:
     def valt(self, t):
         return BOOL if t == PROP else t
 
-    def binop(self, op, a, ta, b, tb):
+    def binop(self, op, a, ta, b, tb, pre=None):
         # broadcasting list (op) scalar
         if is_list(ta) and not is_list(tb):
             x = self.fresh("x")
@@ -186,6 +222,13 @@ class Fn:
             o = {ast.Add: "+", ast.Sub: "-", ast.Mult: "*"}[type(op)]
             return f"({a} {o} {b})", t
         if isinstance(op, ast.Div):
+            if self.monadic:
+                # partial division: bound in the enclosing `do` block (never inside a broadcast lambda)
+                if pre is None:
+                    raise Untranslatable("partial division inside a broadcast")
+                t = self.fresh("t")
+                pre.append((t, f"Py.divE {self.coerce(a, ta, RAT)} {self.coerce(b, tb, RAT)}", RAT, "bind"))
+                return t, RAT
             return f"({self.coerce(a, ta, RAT)} / {self.coerce(b, tb, RAT)})", RAT
         if isinstance(op, ast.FloorDiv):
             if ta == INT and tb == INT:
@@ -269,6 +312,14 @@ class Fn:
             if t == LIST(BOOL):
                 return f"(({s}).any id)", BOOL
             raise Untranslatable(".any() on non-mask")
+        if isinstance(e.func, ast.Attribute) and e.func.attr == "sum" and not args:
+            # (C11) mask.sum() = number of True entries; X.sum() on numeric lists
+            s, t = self.expr(e.func.value, env, pre)
+            if t == LIST(BOOL):
+                return f"(((({s}).count true : Nat) : Int))", INT
+            if t in (LIST(INT), LIST(RAT)):
+                return f"(({s}).sum)", elem(t)
+            raise Untranslatable(f".sum() on {t}")
         if f == "np.mod" and len(args) == 2:
             a, ta = A(0)
             b, tb = A(1)
@@ -320,7 +371,7 @@ class Fn:
         elif isinstance(e.func, ast.Name):
             callee = self.registry.get(e.func.id)
         if callee is not None:
-            if callee.has_raise:
+            if callee.wrap and not self.monadic:
                 raise Untranslatable(f"call of raising function {f}")
             sp = callee.spec
             self_args = [p for p in sp["params"] if p.startswith("self_")]
@@ -334,12 +385,16 @@ class Fn:
             for p, a in zip(other, args):
                 s, t = self.expr(a, env, pre)
                 parts.append(self.coerce(s, t, sp["params"][p]))
+            if callee.wrap:
+                t = self.fresh("t")
+                pre.append((t, " ".join([sp["lean"]] + self_args + parts), sp["ret"], "bind"))
+                return t, sp["ret"]
             return "(" + " ".join([sp["lean"]] + self_args + parts) + ")", sp["ret"]
         raise Untranslatable(f"call {f}")
 
     # ------------------------------------------------------------------ statements
     def ret_wrap(self, s):
-        return f"(.ok {s})" if self.has_raise else s
+        return f"(.ok {s})" if self.wrap else s
 
     def block(self, stmts, env, ind):
         """translate a statement list that ends every path with return/raise"""
@@ -355,7 +410,12 @@ class Fn:
         if isinstance(st, ast.Expr) and isinstance(st.value, ast.Call) and "warn" in ast.unparse(st.value.func):
             return self.block(rest, env, ind)  # warnings are not part of the arithmetic kernel
         if isinstance(st, ast.Return):
-            s, t = self.expr(st.value, env, pre)
+            try:
+                s, t = self.expr(st.value, env, pre)
+            except Unbound:
+                if not self.wrap:
+                    raise
+                return pad + '(.error "UnboundLocalError")\n'
             want = self.spec["ret"]
             if isinstance(want, str):
                 s = self.coerce(s, t, want) if t != want else s
@@ -401,6 +461,11 @@ class Fn:
                 out += pad + f"if ¬ {c} then\n" + self.block(st.orelse, dict(env), ind + 2)
                 out += pad + "else\n" + self.block(list(st.body) + rest, dict(env), ind + 2)
                 return out
+            if self.monadic:
+                # `do` block: the continuation is copied into both branches (binds stay in do-sequences)
+                out += pad + f"if {c} then\n" + self.block(list(st.body) + rest, dict(env), ind + 2)
+                out += pad + "else\n" + self.block(list(st.orelse) + rest, dict(env), ind + 2)
+                return out
             # pure assignment branches: collect assigned names
             names = []
             for n in list(st.body) + list(st.orelse):
@@ -414,6 +479,23 @@ class Fn:
                                 names.append(t.value.id)
                     if isinstance(a, (ast.Return, ast.Raise)):
                         raise Untranslatable("partial return inside if")
+            # (C11) a name assigned on one branch only and unknown before the `if` is local to that branch: it is
+            # not exported (a later use then raises `unknown name`, as Python would raise NameError on the other path)
+            def _assigned_in(stmts, nm):
+                for s_ in stmts:
+                    for a in ast.walk(s_):
+                        if isinstance(a, ast.Assign):
+                            for t in a.targets:
+                                t = self.self_target(t)
+                                if isinstance(t, ast.Name) and t.id == nm:
+                                    return True
+                                if isinstance(t, ast.Subscript) and isinstance(t.value, ast.Name) and t.value.id == nm:
+                                    return True
+                return False
+
+            both = [n for n in names if n in env or (_assigned_in(st.body, n) and _assigned_in(st.orelse, n))]
+            if both:
+                names = both
             b1, env1 = self.assign_block(st.body, dict(env), ind + 2, names)
             b2, env2 = self.assign_block(st.orelse, dict(env), ind + 2, names)
             for n in names:
@@ -464,7 +546,9 @@ class Fn:
         return False
 
     def lets(self, pre, pad):
-        return "".join(f"{pad}let {n} : {self.tstr(t)} := {s}\n" for n, s, t in pre)
+        return "".join(
+            (f"{pad}let {p[0]} ← {p[1]}\n" if len(p) == 4 else f"{pad}let {p[0]} : {self.tstr(p[2])} := {p[1]}\n") for p in pre
+        )
 
     def tstr(self, t):
         if isinstance(t, tuple):
@@ -481,9 +565,9 @@ class Fn:
         body = self.block(stmts, env, 2)
         params = " ".join(f"({p} : {t})" for p, t in sp["params"].items())
         ret = self.tstr(sp["ret"])
-        if self.has_raise:
+        if self.wrap:
             ret = f"Except String ({ret})"
-        return f"def {sp['lean']} {params} : {ret} :=\n{body}"
+        return f"def {sp['lean']} {params} : {ret} :={' do' if self.monadic else ''}\n{body}"
 
 
 def find_function(tree, cls, func):
